@@ -1270,15 +1270,37 @@ func upperGuarded(fn *ssa.Function, blk *ssa.BasicBlock, at ssa.Instruction, bas
 }
 
 func ruleIndexGuard(c *Ctx) {
-	c.Rule("INDEX-GUARD", "Every read of a byte slice at the cursor (index = a loaded cursor field such as p.i or r.pos) or ahead of a position (index = V + k with a constant k >= 1), or at a position that is also used as the exclusive end of a slice of the same bytes (it may equal the length), in package commonmark is dominated by a branch that established an upper bound on that very index (G < B or the false edge of G >= B, with G the index or the index plus a non-negative constant). Indices counted from the end (len-1, End-1), range/loop counters and positions taken from node spans are outside this rule. A dropped bound on a look-ahead or cursor read is an index-out-of-range panic for input that ends right there.")
+	c.Rule("INDEX-GUARD", "Every read of a byte slice at the cursor (index = a loaded cursor field such as p.i or r.pos) or ahead of a position (index = V + k with a constant k >= 1), or at a position that is also used as the exclusive end of a slice of the same bytes (it may equal the length), and every look-ahead read s[V+k] of a string, in packages commonmark and format is dominated by a branch that established an upper bound on that very index (G < B or the false edge of G >= B, with G the index or the index plus a non-negative constant). Indices counted from the end (len-1, End-1), range/loop counters and positions taken from node spans are outside this rule. A dropped bound on a look-ahead or cursor read is an index-out-of-range panic for input that ends right there.")
 	p := c.P
 	n := 0
 	perFn := map[*ssa.Function]int{}
 	for _, fn := range p.Funcs {
-		if fn.Pkg != p.CMs {
+		if fn.Pkg != p.CMs && fn.Pkg != p.FMTs {
 			continue
 		}
 		eachInstr(fn, func(in ssa.Instruction) {
+			// bytes of a string: s[i+k] (look-ahead form only)
+			var strX, strIdx ssa.Value
+			switch y := in.(type) {
+			case *ssa.Index:
+				strX, strIdx = y.X, y.Index
+			case *ssa.Lookup:
+				strX, strIdx = y.X, y.Index
+			}
+			if strX != nil {
+				if bt, ok := strX.Type().Underlying().(*types.Basic); ok && bt.Info()&types.IsString != 0 {
+					if _, isConst := strX.(*ssa.Const); !isConst {
+						base, k := splitAdd(strIdx)
+						if _, fromEnd := base.(*ssa.BinOp); k >= 1 && !fromEnd {
+							n++
+							perFn[fn]++
+							key := fmt.Sprintf("%s:string-look-ahead#%d", shortFuncName(fn), perFn[fn])
+							c.Check(upperGuarded(fn, in.Block(), in, base, k), "INDEX-GUARD", key, in.Pos(), "look-ahead read of a string without a dominating upper-bound test on its index")
+						}
+					}
+				}
+				return
+			}
 			ia, ok := in.(*ssa.IndexAddr)
 			if !ok {
 				return
